@@ -474,14 +474,20 @@ var heapFloats = []uint64{
 }
 
 type HistGen struct {
-	r   *Rng
-	s   *Session
-	ops [][]string
-	out func(req []string, obs string)
+	r    *Rng
+	s    *Session
+	ops  [][]string
+	out  func(req []string, obs string)
+	exec func(f []string) string // nil: s.Exec
 }
 
 func (g *HistGen) do(f ...string) string {
-	obs := g.s.Exec(f)
+	var obs string
+	if g.exec != nil {
+		obs = g.exec(f)
+	} else {
+		obs = g.s.Exec(f)
+	}
 	g.ops = append(g.ops, f)
 	if g.out != nil {
 		g.out(f, obs)
